@@ -494,3 +494,94 @@ print('NOT-REPRODUCED'); sys.exit(0)
 '''
 
 PROBES = [("a constructor value unknown to an unchecked Selector stays with the instance", CTOR_UNCHECKED_REPLAY)]
+
+
+# ======================================================================================
+# Parameters.self_or_cls — the target of .param.update / trigger / values(): the instance whenever
+# there is one (whatever its truth value), the class otherwise
+# ======================================================================================
+FALSY_REPLAY = '''import sys, os, itertools
+sys.path.insert(0, os.environ.get('PYVC_REPO', '/repo'))
+import param
+bad = []
+class Bag(param.Parameterized):
+    x = param.Number(default=1)
+    items = param.List(default=[])
+    def __len__(self):
+        return len(self.items)
+class Off(param.Parameterized):
+    x = param.Number(default=1)
+    items = param.List(default=[])
+    def __bool__(self):
+        return False
+for cls in (Bag, Off):
+    for how in ('update', 'update-mapping', 'update-context', 'set_param', 'trigger'):
+        other = cls()
+        o = cls()
+        seen = []
+        o.param.watch(lambda e: seen.append(e.new), 'x')
+        import warnings
+        with warnings.catch_warnings():
+            warnings.simplefilter('ignore')
+            if how == 'update':
+                o.param.update(x=5)
+            elif how == 'update-mapping':
+                o.param.update({'x': 5})
+            elif how == 'update-context':
+                with o.param.update(x=5):
+                    inside = o.x
+                if inside != 5:
+                    bad.append('%s (falsy instance), update context: the instance shows %r inside the block' % (cls.__name__, inside))
+            elif how == 'set_param':
+                o.param.set_param(x=5)
+            else:
+                o.x = 5
+                o.param.trigger('x')
+        want = 1 if how == 'update-context' else 5
+        if o.x != want:
+            bad.append('%s (falsy instance), %s: the instance holds %r, expected %r' % (cls.__name__, how, o.x, want))
+        if cls.x != 1 or other.x != 1:
+            bad.append('%s (falsy instance), %s through the instance namespace changed the class default to %r (another instance shows %r)'
+                       % (cls.__name__, how, cls.x, other.x))
+            cls.x = 1
+        if how == 'trigger' and seen[-1:] != [5]:
+            bad.append('%s (falsy instance), trigger: the instance watcher saw %r' % (cls.__name__, seen))
+        if o.param.values()['x'] != o.x:
+            bad.append('%s (falsy instance), %s: values() reports %r, the attribute is %r' % (cls.__name__, how, o.param.values()['x'], o.x))
+if bad:
+    print('REPRODUCED: ' + bad[0]); sys.exit(1)
+print('NOT-REPRODUCED'); sys.exit(0)
+'''
+
+
+def self_or_cls_contract():
+    def configure(I):
+        pass
+
+    def setup(I, st):
+        self_ = I.alloc_obj(st, "Parameters", lazy=False, label="self_")
+        inst, cls_ = Sym(I.U.fresh("instance")), Sym(I.U.fresh("cls"))
+        st.heap[self_.oid].fields.update({"self": inst, "cls": cls_})
+        found = I.src.find_method("Parameters", "self_or_cls")
+        if found is None:
+            raise OutOfReach("Parameters.self_or_cls not defined")
+        c, m, fd = found
+        fv = FuncV("repo", module=m, cls=c, node=fd, self=self_, qual="Parameters.self_or_cls")
+        return fv, [], {}, {"inst": inst.t, "cls": cls_.t, "symbols": {}}
+
+    def post(I, info, st, oc):
+        if isinstance(oc, Raise):
+            return [("does-not-raise", z3.BoolVal(False))]
+        return [("the instance whenever there is one — whatever its truth value —, the class only when there is none",
+                 I.term(oc) == z3.If(info["inst"] == I.U.NONE, info["cls"], info["inst"]))]
+    c = FunctionContract("%s:Parameters.self_or_cls" % MOD, PROP, setup, post, configure=configure, name="Parameters.self_or_cls")
+    c.static_replay = FALSY_REPLAY
+    c.static_witness = "a Parameterized instance whose truth value is False (empty container, __bool__)"
+    return c
+
+
+_c12_base_soc = contracts
+
+
+def contracts():
+    return _c12_base_soc() + [self_or_cls_contract()]
